@@ -141,7 +141,7 @@ END()
 IMPL('impl<B> Flow<B, Prepare>')
 FN('new', props=['C09', 'C10', 'C17', 'C13'], ret='r',
    ensures=[
-       ('C09.new_flow_is_prepare', '''r is Ok && r->Ok_0.inner.wf_prepare() && r->Ok_0.inner.call.req().request.same_head(&request) && r->Ok_0.inner.call.req().uri is None
+       ('C09/C11.new_flow_is_prepare', '''r is Ok && r->Ok_0.inner.wf_prepare() && r->Ok_0.inner.call.req().request.same_head(&request) && r->Ok_0.inner.call.req().uri is None
             && r->Ok_0.inner.call.req().headers.view().len() == 0 && r->Ok_0.inner.call.req().unset.view().len() == 0
             && r->Ok_0.inner.should_send_body == method_needs_body(request.spec_method())
             && r->Ok_0.inner.await_100_continue == has_field(request.spec_headers().entries(), lit("expect"), lit("100-continue"))'''),
@@ -211,7 +211,7 @@ FN('proceed', props=['C09', 'C11'], ret='r', mutself=True,
    requires=[('C09.wf', 'self.inner.wf_sending()'), ('C02.quantifier_request_names_its_host', 'self.inner.names_host()')],
    ensures=[
        ('C09.proceed_iff_can_proceed', '(r is Ok && r->Ok_0 is None) <==> !(self.inner.bstate().phase is SendBody)'),
-       ('C09.edge_after_head', '''self.inner.bstate().phase is SendBody ==> match r {
+       ('C09/C11.edge_after_head', '''self.inner.bstate().phase is SendBody ==> match r {
             Ok(Some(SendRequestResult::Await100(f))) => self.inner.should_send_body && self.inner.await_100_continue && f.inner == self.inner && f.inner.wf_await100(),
             Ok(Some(SendRequestResult::SendBody(f))) => self.inner.should_send_body && !self.inner.await_100_continue && f.inner == self.inner && f.inner.wf_send_body(),
             Ok(Some(SendRequestResult::RecvResponse(f))) => !self.inner.should_send_body && f.inner.wf_recv_response() && self.inner.same_facts(&f.inner)
@@ -235,7 +235,7 @@ FN('try_read_100', props=['C11', 'C10', 'C12', 'C09', 'C01'], ret='r',
    ensures=[
        ('C09.wf_preserved', 'final(self).inner.wf_await100() && final(self).inner.call == old(self).inner.call && final(self).inner.status == old(self).inner.status && final(self).inner.location == old(self).inner.location'),
        ('C12.counts', 'r is Ok ==> r->Ok_0 <= input.len()'),
-       ('C11.handshake_exact', '''match parse_response(input@, 0) {
+       ('C10/C11.handshake_exact', '''match parse_response(input@, 0) {
             // input ends inside the status line or right after it: decide nothing, consume nothing
             Outcome::Partial(_) => r == Ok::<usize, Error>(0usize) && final(self).inner == old(self).inner,
             Outcome::Complete(n, p) =>
@@ -259,7 +259,7 @@ FN('try_read_100', props=['C11', 'C10', 'C12', 'C09', 'C01'], ret='r',
 FN('can_keep_await_100', props=['C11'], ret='r', ensures=[('aux.can_keep_await_100', 'r == self.inner.await_100_continue')])
 FN('proceed', props=['C09', 'C11'], ret='r', mutself=True,
    requires=[('C09.wf', 'self.inner.wf_await100()')],
-   ensures=[('C11.body_sent_iff_not_refused', '''match r {
+   ensures=[('C09/C11.body_sent_iff_not_refused', '''match r {
             Ok(Await100Result::SendBody(f)) => self.inner.should_send_body && f.inner == self.inner && f.inner.wf_send_body(),
             Ok(Await100Result::RecvResponse(f)) => !self.inner.should_send_body && f.inner.wf_recv_response() && self.inner.same_facts(&f.inner) && f.inner.call.req() == self.inner.call.req() && f.inner.bstate().reader is None,
             Err(_) => false }''')],
@@ -344,7 +344,7 @@ FN('proceed', props=['C09', 'C06', 'C08', 'C10', 'C15'], ret='r', mutself=True,
    requires=[('C09.wf', 'self.inner.wf_recv_response()')],
    ensures=[
        ('C09.proceed_iff_can_proceed', 'r is Some <==> self.inner.bstate().reader is Some'),
-       ('C06.successor_state', '''self.inner.bstate().reader matches Some(rd) ==> ({
+       ('C06/C08/C09/C10/C15.successor_state', '''self.inner.bstate().reader matches Some(rd) ==> ({
             let need_body = !(rd is NoBody || (rd is LengthDelimited && rd->LengthDelimited_0 == 0));
             match r {
                 Some(RecvResponseResult::RecvBody(f)) => need_body && f.inner.wf_received() && f.inner.bstate().reader == Some(rd) && f.inner.status == self.inner.status && f.inner.location == self.inner.location
@@ -452,7 +452,7 @@ FN('as_new_flow', props=['C13', 'C14', 'C15', 'C16', 'C09', 'C12'], ret='r',
             match redirect_method(old(self).inner.status->Some_0.0, old(self).inner.call.req().request.spec_method()) {
                 None => r is Ok && r->Ok_0 is None && final(self).inner == old(self).inner,
                 Some(m) => r is Ok && r->Ok_0 is Some && r->Ok_0->Some_0.inner.call.req().request.spec_method() == m }'''),
-       ('C13/C14.next_request', '''r is Ok && r->Ok_0 is Some ==> ({
+       ('C13/C14/C16.next_request', '''r is Ok && r->Ok_0 is Some ==> ({
             let next = r->Ok_0->Some_0.inner;
             let prev = old(self).inner.call.req();
             let target = redirect_target(prev.eff_uri(), old(self).inner.location->Some_0.view())->Some_0;
